@@ -28,7 +28,7 @@ PROPS = {
  "C01": dict(cfgs=all48_thorough, consteval="focus",
    scope=lambda t: "every (a,b) in S(w,r)^2 x {+,-,+=,-=} x call-site shapes {out-of-line, loop, 36 constants as either operand, self, 8 caller guards} x build configurations; complete within that bound, not over all 2^128 pairs",
    assumptions=COMMON_ASSUMPTIONS + ["a defect needing more than w significant bits in BOTH operands and no constant operand of the listed set can escape"],
-   deadline={"quick": 600, "thorough": 3000}),
+   deadline={"quick": 600, "thorough": 7200}),
  "C06": dict(cfgs=quick16_all, consteval="focus",
    scope=lambda t: "six comparison operators on every pair of (S(w,r) u {+NaN,-NaN,INT64_MIN})^2; isnan/unary minus/abs on S(w,r) u both NaNs u every raw value of a dense interval around 0; complete within that bound",
    assumptions=COMMON_ASSUMPTIONS),
